@@ -116,7 +116,9 @@ class ELsb0(Engine):
     def gen(self, g):
         cfg = self.cfg
         if g.r.random() < 0.03 * cfg['toggle_w']:
-            return {'k': 'toggle', 'value': not self.lsb0 if g.chance(0.9) else self.lsb0}
+            want = (not self.lsb0) if g.chance(0.9) else self.lsb0
+            # the option is documented as a bool; truthy / falsy ints are what callers write just as often
+            return {'k': 'toggle', 'value': want if g.chance(0.7) else int(want)}
         for _ in range(8):
             ev = self._gen_op(g)
             if not cfg['avoid'] or self.trigger(ev) == '-':
@@ -559,11 +561,21 @@ class ELsb0(Engine):
 
     def _toggle(self, ev):
         incs = []
-        new = bool(ev.get('value'))
+        self._pending_inc = None
+        raw = ev.get('value')
+        raw = raw if isinstance(raw, (bool, int)) else bool(raw)
         before = [(self._whole(xl), self._hash_eq(xl, xm)) for cls, xl, xm in self.ents]
-        self.L.pkg.options.lsb0 = new
+        hb = [self._hash_probe(cls, xl) for cls, xl, xm in self.ents]
+        call(setattr, self.L.pkg.options, 'lsb0', raw)
+        # the mode in force is whatever the option now reads (an assignment the library refuses leaves it as it was)
+        new = bool(self.L.pkg.options.lsb0)
         changed = new != self.lsb0
         self.lsb0 = new
+        ha = [self._hash_probe(cls, xl) for cls, xl, xm in self.ents]
+        for j, (b_, a_) in enumerate(zip(hb, ha)):
+            if b_ is not None and b_ != a_:
+                incs_h = self.inc('toggle|hash-changed', cls=self.ents[j][0], n=len(safe_bin(self.ents[j][1])), lsb0=new)
+                self._pending_inc = incs_h
         after = [(self._whole(xl), None) for cls, xl, xm in self.ents]
         for j, ((b, _), (a, _)) in enumerate(zip(before, after)):
             if a != b:
@@ -573,6 +585,14 @@ class ELsb0(Engine):
             ref = self._whole(getattr(self.M.pkg, cls)(bin=safe_bin(xl)))
             if ref != after[j][0]:
                 incs.append(self.inc('whole|interpretation-differs-from-msb0', cls=cls, lsb0=new, got=_short(after[j][0]), want=_short(ref)))
+        if self._pending_inc is not None:
+            incs.append(self._pending_inc)
+        # ==, hash: an immutable object hashes like the msb0 library's object of the same bits, in either mode
+        for j, (cls, xl, xm) in enumerate(self.ents):
+            if cls in ('Bits', 'ConstBitStream'):
+                st, same = call(lambda: hash(xl) == hash(getattr(self.L.pkg, cls)(bin=safe_bin(xl))) and xl == getattr(self.L.pkg, 'Bits')(bin=safe_bin(xl)))
+                if st != 'ok' or not same:
+                    incs.append(self.inc('whole|hash-or-eq-differs-from-equal-object', cls=cls, lsb0=new, n=len(safe_bin(xl))))
         for j in range(len(self.ents)):
             self._rebuild(j)
         if changed:
@@ -585,6 +605,13 @@ class ELsb0(Engine):
 
     def _hash_eq(self, xl, xm):
         return None
+
+    def _hash_probe(self, cls, x):
+        """hash of an immutable object (compared before / after a toggle only; never logged: it depends on PYTHONHASHSEED)."""
+        if cls not in ('Bits', 'ConstBitStream'):
+            return None
+        st, h = call(hash, x)
+        return h if st == 'ok' else 'exc'
 
     def finish(self):
         """Switching the option off restores msb0 behaviour exactly: a fixed probe program agrees with M."""
